@@ -30,7 +30,7 @@ ASSUMPTIONS = ["sasmodels.special provides the C names for the Python rendering 
 REQUIRED_MONITORS = ["python_equals_c", "both_equal_formula", "ill_formed_rejected"]
 REQUIRED_BUCKETS = {"quick": ["has:vector", "has:shell_volume", "has:radius_effective", "has:valid", "has:orientation", "dim:1d", "dim:2d",
                               "mesh:mono", "mesh:>=2dims", "trunc:1", "trunc:0", "cutoff>0", "invalid_points>0",
-                              "mono_invalid", "lane:asan", "wrapper:first", "wrapper:revised"]}
+                              "mono_invalid", "lane:asan", "wrapper:first", "wrapper:revised", "has:shell_volume-in-inline-c-code", "mesh:unnormalised-weights-with-cutoff"]}
 REQUIRED_BUCKETS["thorough"] = REQUIRED_BUCKETS["quick"]
 
 
@@ -129,7 +129,8 @@ def gen_definition(rng, d):
         pars.append(["phi", "degrees", 60, [-360, 360], "orientation", "longitude"])
         L0 = lens[int(rng.integers(len(lens)))]
         iqac = ("*", iq, ("+", ("k", 1.0), ("*", ("k", 0.5), ("f", "cos", ("*", ("v", "qc"), L0)))))
-    return {"pars": pars, "vols": vols, "has_vector": has_vector, "iq": iq, "form": form, "shell": shell,
+    return {"shell_in_ccode": bool(shell is not None and d % 2 == 1),
+            "pars": pars, "vols": vols, "has_vector": has_vector, "iq": iq, "form": form, "shell": shell,
             "modes": modes, "valid": valid, "slds": slds, "plain": plain, "oriented": oriented, "iqac": iqac}
 
 
@@ -199,7 +200,10 @@ def write_files(defn, name, dirpath, ill=None):
     c += 'form_volume = """\n    return %s;\n"""\n' % txt(defn["form"])
     cdecl = ", ".join(("double *%s" % a if a == "shell" else "double %s" % a) for a in vol_args)
     ccode = ""
-    if defn["shell"] is not None:
+    if defn["shell"] is not None and defn.get("shell_in_ccode"):
+        # the shell volume written as an ordinary C function in the inline code block
+        ccode += "static double shell_volume(%s) {\n    return %s;\n}\n" % (cdecl, txt(defn["shell"]))
+    elif defn["shell"] is not None:
         c += 'shell_volume = """\n    return %s;\n"""\n' % txt(defn["shell"])
     if defn["modes"]:
         sw = "\n".join("    case %d: return %s;" % (m + 1, txt(e)) for m, e in enumerate(defn["modes"]))
@@ -349,6 +353,8 @@ def run_case(case, rec):
         rec.bucket("has:vector")
     if defn["shell"] is not None:
         rec.bucket("has:shell_volume")
+        if defn.get("shell_in_ccode"):
+            rec.bucket("has:shell_volume-in-inline-c-code")
     if defn["modes"]:
         rec.bucket("has:radius_effective")
     if defn["valid"] is not None:
@@ -452,6 +458,38 @@ def run_case(case, rec):
         rec.check("both_equal_formula", okf, None if okf else dict(ctx, c=[Ic, Fc[1:]], formula=[exp, ref["shell"], ref["ratio"], ref["R"]]))
         rec.check("no_stale_result", not sas.has_poison(Ic), ctx)
         lengths = [len(m[1]) for m in mesh[2:2 + cinfo.parameters.npars]]
+        if shape in ("pd2", "pd3") and sum(1 for n_ in lengths if n_ > 1) >= 2 and c % 2 == 1:
+            # the same mesh with weights that are not normalised (a distribution read from a file as histogram counts,
+            # another one in small absolute units) and a cutoff between the products: the mean is over the points whose
+            # weight product exceeds the cutoff, for both execution paths
+            from sasmodels import details as sasdetails
+            longest = int(np.argmax(lengths)) + 2
+            others = [j_ + 2 for j_, n_ in enumerate(lengths) if n_ > 1 and j_ + 2 != longest]
+            mesh2 = [list(m_) for m_ in mesh]
+            mesh2[longest][2] = np.asarray(mesh2[longest][2], float)*float(rng.uniform(100, 1000))
+            for j_ in others:
+                mesh2[j_][2] = np.asarray(mesh2[j_][2], float)*float(10**rng.uniform(-4, -3))
+            mesh2 = [tuple(m_) for m_ in mesh2]
+            prods = np.sort(np.array([np.prod(w_) for w_ in itertools.product(*[np.asarray(m_[2], float) for m_ in mesh2[2:2 + cinfo.parameters.npars]])]))
+            gaps = [(prods[j_ + 1]/prods[j_], j_) for j_ in range(len(prods)//4, 3*len(prods)//4) if prods[j_] > 0]
+            if gaps:
+                _g, j0 = max(gaps)
+                cut2 = float(math.sqrt(prods[j0]*prods[j0 + 1]))
+                ref2 = formula(defn, cinfo, mesh2, q, dim, cut2, mode)
+                exp2 = pars["scale"]*ref2["F2"]/(ref2["shell"] if ref2["W"] and ref2["shell"] else 1.0) + pars["background"]
+                outs = {}
+                for nm_, kern_ in (("c", kc), ("python", kp)):
+                    if kern_ is None:
+                        continue
+                    cd_, vals_, mag_ = sasdetails.make_kernel_args(kern_, mesh2)
+                    outs[nm_] = np.asarray(kern_.Iq(cd_, vals_, cut2, mag_), float)
+                sc2 = float(np.max(np.abs(exp2 - pars["background"]))) + 1e-300
+                for nm_, val_ in outs.items():
+                    oku = core.close(val_, exp2, 1e-10, 1e-12*sc2)
+                    rec.check("both_equal_formula", oku,
+                              None if oku else dict(ctx, path=nm_, note="weights not normalised, cutoff %g between weight products" % cut2,
+                                                    observed=val_, formula=exp2, retained_weight=ref2["W"]))
+                rec.bucket("mesh:unnormalised-weights-with-cutoff")
         rec.set_shape((d, shape, dim, lengths, mode, cutoff),
                       nontrivial=(max(lengths + [0]) >= 2 or shape in ("trunc1", "trunc0", "mono_invalid")))
         if c == 0 and d < 3:
